@@ -21,9 +21,13 @@ const (
 	ShapeSpiky
 	ShapeHalts // a random walk with halted sessions: open = high = low = close (the previous close), zero volume
 	NumShapes
+	// ShapeGlitch is outside the generally drawn shapes (prices are not positive): a random walk
+	// with data glitches - bars whose prices and volume are all 0. Only C05 draws it: its oracle
+	// (count, alphabet, Hold through the warm-up) is indifferent to the NaN/Inf values that follow.
+	ShapeGlitch = NumShapes
 )
 
-var shapeNames = []string{"walk", "flat", "up", "down", "saw", "ties", "tiny", "huge", "spiky", "halts"}
+var shapeNames = []string{"walk", "flat", "up", "down", "saw", "ties", "tiny", "huge", "spiky", "halts", "glitch"}
 
 // genSnapshots returns n snapshots of the given shape with low <= open, close <= high, positive
 // prices, non-negative volume and consecutive whole-day UTC dates starting at start.
@@ -40,7 +44,7 @@ func genSnapshots(n int, shape int, seed int64, start time.Time) []*asset.Snapsh
 	}
 	for i := 0; i < n; i++ {
 		switch shape {
-		case ShapeWalk, ShapeTiny, ShapeHuge, ShapeHalts:
+		case ShapeWalk, ShapeTiny, ShapeHuge, ShapeHalts, ShapeGlitch:
 			price *= 1 + 0.04*(rng.Float64()-0.5)
 		case ShapeFlat:
 		case ShapeUp:
@@ -83,6 +87,9 @@ func genSnapshots(n int, shape int, seed int64, start time.Time) []*asset.Snapsh
 		if shape == ShapeHalts && i > 0 && rng.Intn(6) == 0 {
 			price = out[i-1].Close / scale
 			c, o, h, l, vol = price, price, price, price, 0
+		}
+		if shape == ShapeGlitch && rng.Intn(7) == 0 {
+			c, o, h, l, vol = 0, 0, 0, 0, 0
 		}
 		out[i] = &asset.Snapshot{
 			Date:   start.AddDate(0, 0, i),
